@@ -222,6 +222,18 @@ fn param_cases(rep: &mut Report, rng: &mut R) {
         let class = format!("params:lzw:png-bpc{}x{}", bits, colors);
         check(rep, &class, rc::lzw_encode(&rc::png_filter(d, rowlen, bpp, &[4, 1, 3, 2, 0]), true), StreamFilter::LZWDecode(params(15, colors as i32, bits as i32, cols as i32, 1)), d);
     }
+    // TIFF predictor with samples of 1, 2, 4 and 16 bits
+    for (colors, bits, cols) in [(1usize, 1usize, 13usize), (3, 1, 5), (1, 2, 7), (3, 2, 5), (1, 4, 5), (3, 4, 3), (4, 4, 2), (1, 16, 3), (3, 16, 2), (2, 8, 5)] {
+        let rowlen = (cols * colors * bits + 7) / 8;
+        let mut d = payload[..rowlen * 4].to_vec();
+        // the unused bits at the end of a row are zero in well-formed data
+        let used = cols * colors * bits;
+        if used % 8 != 0 { for row in d.chunks_mut(rowlen) { let last = row.len() - 1; row[last] &= 0xffu8 << (8 - used % 8); } }
+        let class = format!("params:flate:tiff2-bpc{}x{}", bits, colors);
+        check(rep, &class, rc::zlib(&rc::tiff_filter_bits(&d, rowlen, colors, bits, cols * colors)), StreamFilter::FlateDecode(params(2, colors as i32, bits as i32, cols as i32, 1)), &d);
+        let class = format!("params:lzw:tiff2-bpc{}x{}", bits, colors);
+        check(rep, &class, rc::lzw_encode(&rc::tiff_filter_bits(&d, rowlen, colors, bits, cols * colors), true), StreamFilter::LZWDecode(params(2, colors as i32, bits as i32, cols as i32, 1)), &d);
+    }
     // plain codecs
     check(rep, "params:lzw:ec0", rc::lzw_encode(&payload, false), StreamFilter::LZWDecode(params(1, 1, 8, 1, 0)), &payload);
     check(rep, "params:lzw:ec1", rc::lzw_encode(&payload, true), StreamFilter::LZWDecode(params(1, 1, 8, 1, 1)), &payload);
@@ -285,6 +297,23 @@ fn sweeps(rep: &mut Report, rng: &mut R, thorough: bool) {
     }
     rep.add("sweep_a85_words", (n + boundary.len()) as u64);
     if bad > 0 { rep.fail("sweep:a85", json!({"mismatches": bad, "case": {"part": "sweep", "what": "a85"}})); }
+    // white-space inside the encoded text: each of the six white-space characters of the PDF syntax, between any two symbols
+    // (ISO 32000-1 7.4.2 / 7.4.3: white-space characters are ignored)
+    let sample: Vec<u8> = (0..23u8).map(|i| i.wrapping_mul(37) ^ 0xa5).collect();
+    for (name, enc, f) in [("hex", rc::hex_encode(&sample), StreamFilter::ASCIIHexDecode), ("a85", rc::a85_encode(&sample), StreamFilter::ASCII85Decode)] {
+        for ws in [0u8, 9, 10, 12, 13, 32] {
+            let mut bad = 0;
+            for pos in 0..enc.len() {
+                // not inside the end marker "~>"
+                if name == "a85" && pos + 1 == enc.len() { continue; }
+                let mut e = enc.clone();
+                e.insert(pos, ws);
+                if decode(&e, &f).ok().as_deref() != Some(&sample[..]) { bad += 1; }
+            }
+            rep.add("sweep_whitespace_positions", enc.len() as u64);
+            if bad > 0 { rep.fail(&format!("sweep:{}-whitespace-{}", name, ws), json!({"mismatches": bad, "case": {"part": "sweep", "what": format!("{} with white-space byte {}", name, ws)}})); }
+        }
+    }
     // the group above 2^32 - 1 must be rejected, not wrapped
     if decode(b"s8W-\"~>", &StreamFilter::ASCII85Decode).is_ok() { rep.fail("sweep:a85-overflow", json!({"case": {"part": "sweep", "what": "a85 overflow"}})); }
 }
